@@ -336,6 +336,11 @@ fn expand_enum(
             if attrs.common.fmt.is_none()
                 && variant.fields.is_empty()
                 && attr_name != "display"
+                && container_attrs
+                    .common
+                    .fmt
+                    .as_ref()
+                    .map_or(true, |fmt| fmt.contains_arg("_variant"))
             {
                 return Err(syn::Error::new(
                     e.variants.span(),
